@@ -2,6 +2,7 @@ import M3d.Basic
 import M3d.Model.MarchingMesh
 import M3d.Model.Bisect
 import M3d.Model.DualContour
+import M3d.Model.MarchingFilter
 import M3d.Gen.McTable
 /-! Line-protocol handler for C02. Core-only. -/
 namespace M3d.Drv.C02
@@ -70,17 +71,23 @@ def dedupSorted : List String → List String
 
 /-! ### marching cubes / squares: vertex set -/
 
-/-- `mcv NX NY NZ bits`: the vertex set the property demands — one vertex at the midpoint of every
+/-- `mcv NX NY NZ bits` (and `mcf …`, the Filter variants; tokens after the labelling are replay
+information): the vertex set the property demands — one vertex at the midpoint of every
 lattice edge whose ends are labelled differently, nothing else (doubled index coordinates) — after
 checking that the table-driven whole-lattice model mesh has exactly that vertex set. -/
-def handleMcv (ws : List String) : Option String := do
+def handleMcv (filtered : Bool) (ws : List String) : Option String := do
   let nx ← (← ws[0]?).toNat?; let ny ← (← ws[1]?).toNat?; let nz ← (← ws[2]?).toNat?
   let b := bitsOf (← ws[3]?)
   if b.size ≠ nx * ny * nz then none
   let lab : Nat → Nat → Nat → Bool := fun x y z =>
     if x ≥ nx || y ≥ ny || z ≥ nz then false else b.getD (x + nx * (y + ny * z)) false
   let showGV := fun (v : GV) => s!"{v.1}.{v.2.1}.{v.2.2}"
-  let mesh := mcMesh Gen.mcTable (nx - 1) (ny - 1) (nz - 1) lab
+  -- `mcf`: the model of `MarchingCubesFilter` (block queue, `Pieces`, one worker) with the least
+  -- permissive sound filter; by `mc_filter_same_mesh` / `mc_filter_vertex_iff_sign_change` any sound
+  -- filter and any schedule give the same faces
+  let mesh := if filtered then
+      MarchingFilter.mcFilterMesh1 Gen.mcTable (nx - 1) (ny - 1) (nz - 1) lab (MarchingFilter.tightFilter3 lab)
+    else mcMesh Gen.mcTable (nx - 1) (ny - 1) (nz - 1) lab
   let mverts := dedupSorted (sortStrs (mesh.flatMap fun t => [showGV t.1, showGV t.2.1, showGV t.2.2]))
   let spec := sortStrs <|
     (List.range nz).flatMap fun z => (List.range ny).flatMap fun y => (List.range nx).flatMap fun x =>
@@ -90,14 +97,16 @@ def handleMcv (ws : List String) : Option String := do
   if mverts != spec then some "model-mesh-vertices-differ-from-sign-changing-edges"
   else some s!"n={spec.length} side=1 {";".intercalate spec}"
 
-def handleMsv (ws : List String) : Option String := do
+def handleMsv (filtered : Bool) (ws : List String) : Option String := do
   let nx ← (← ws[0]?).toNat?; let ny ← (← ws[1]?).toNat?
   let b := bitsOf (← ws[2]?)
   if b.size ≠ nx * ny then none
   let lab : Nat → Nat → Bool := fun x y =>
     if x ≥ nx || y ≥ ny then false else b.getD (x + nx * y) false
   let showGV := fun (v : GV2) => s!"{v.1}.{v.2}"
-  let mesh := msMesh Gen.msTable (nx - 1) (ny - 1) lab
+  let mesh := if filtered then
+      MarchingFilter.msFilterMesh1 Gen.msTable (nx - 1) (ny - 1) lab (MarchingFilter.tightFilter2 lab)
+    else msMesh Gen.msTable (nx - 1) (ny - 1) lab
   let mverts := dedupSorted (sortStrs (mesh.flatMap fun t => [showGV t.1, showGV t.2]))
   let spec := sortStrs <|
     (List.range ny).flatMap fun y => (List.range nx).flatMap fun x =>
@@ -262,8 +271,10 @@ def handleDc (repair : Bool) (ws : List String) : Option String := do
 
 def handleAll (ws : List String) : Option String :=
   match ws with
-  | "mcv" :: rest => handleMcv rest
-  | "msv" :: rest => handleMsv rest
+  | "mcv" :: rest => handleMcv false rest
+  | "msv" :: rest => handleMsv false rest
+  | "mcf" :: rest => handleMcv true rest
+  | "msf" :: rest => handleMsv true rest
   | "mcs" :: rest => handleMcs rest
   | "mss" :: rest => handleMss rest
   | "bis" :: rest => handleBis rest
